@@ -21,11 +21,13 @@ RULE = ("case = complete game (n in 1..10; integer, dyadic, float, negative, non
         "contribution over all n! orderings in exact rationals (n<=7 quick, 8 thorough; subset formula, itself "
         "cross-checked against the orderings, above), efficiency, symmetry under a random relabelling, null player, "
         "linearity (using the library's game addition), equality of the two entry points. Tolerance "
-        "1e-10*(1+sum|v|). Distinct = hash(values); non-trivial = at least two different Shapley values.")
+        "1e-10*(1+sum|v|). Distinct = hash(values); non-trivial = at least two different Shapley values. Additionally one "
+        "SYMBOLIC execution per n=1..6 (7 in thorough): values are linear forms (vmon/linform.py) pushed through both real "
+        "entry points; every coefficient is compared with the orderings definition, which decides it for all real games of that n.")
 SHARDS = {"quick": 4, "thorough": 16}
 BUDGET = {"quick": 35, "thorough": 360}
 REQUIRED = ["orderings_definition_checks", "unit_basis_games", "graph_games", "linearity_checks", "symmetry_checks",
-            "null_player_checks", "entry_point_pairs"]
+            "null_player_checks", "entry_point_pairs", "symbolic_executions"]
 
 
 def real_game(values):
@@ -131,6 +133,56 @@ def run_case(ctx, case) -> None:
              sample={"n": n, "family": case["family"], "values_head": values[:8], "shapley": got})
 
 
+class SymbolicCompleteGame:
+    """Game protocol object whose values are symbolic linear forms; v(empty) = 0."""
+
+    def __init__(self, n):
+        from ..linform import Lin
+        self.number_of_players = n
+        self._v = np.empty(1 << n, dtype=object)
+        self._v[:] = [Lin()] + [Lin.var(f"v{m}") for m in range(1, 1 << n)]
+
+    def get_values(self, coalitions=None):
+        return self._v.copy() if coalitions is None else self._v[[c.id for c in coalitions]]
+
+    def get_value(self, coalition):
+        return self._v[coalition.id]
+
+    def copy(self):
+        return self
+
+    def __add__(self, other):
+        raise NotImplementedError
+
+
+def symbolic_case(ctx, n: int) -> None:
+    """One execution of each real entry point on symbolic values decides the definition for ALL real games of size n."""
+    from fractions import Fraction
+    case = {"n": n, "family": "symbolic", "symbolic": True, "values": []}
+    size = 1 << n
+    try:
+        g = SymbolicCompleteGame(n)
+        forms = list(compute_shapley_value(g))
+        singles = [compute_shapley_value_for_player(i, g) for i in range(n)]
+    except Exception as exc:
+        ctx.violation("shapley-raised", f"symbolic values, n={n}: {type(exc).__name__}: {exc}", case)
+        return
+    ctx.count("symbolic_executions")
+    for m in range(1, size):
+        unit = [Fraction(0)] * size
+        unit[m] = Fraction(1)
+        phi = ref_shapley_perm(n, unit)          # coefficient of v(m) in each player's value, from the n! orderings
+        for i in range(n):
+            ctx.count("symbolic_coefficients_checked")
+            for label, f in (("all-players", forms[i]), ("single-player", singles[i])):
+                got = f.c.get(f"v{m}", 0.0)
+                if abs(got - float(phi[i])) > 1e-12:
+                    ctx.violation("not-average-marginal-contribution", f"symbolic run ({label} entry point), n={n}: coefficient of "
+                                  f"v({m}) in player {i}'s value is {got!r}, the orderings definition gives {float(phi[i])!r}", case)
+                    return
+    ctx.case(("symbolic", n), True, sample={"n": n, "family": "symbolic", "player0_form_head": dict(sorted(forms[0].c.items())[:6])})
+
+
 def gen_game(rng, n):
     size = 1 << n
     fam = rng.choice(["int", "dyadic", "float", "negative", "big", "sparse"])
@@ -154,6 +206,9 @@ def run(ctx) -> None:
     rng = ctx.rng
     quick = ctx.tier == "quick"
     perm_max = 7 if quick else 8
+    for n in range(1, 7 if quick else 8):
+        if n % ctx.nshards == ctx.shard % ctx.nshards or n <= 4:
+            symbolic_case(ctx, n)
     # unit basis games e_S for every S (n <= 5 quick / 6 thorough), sharded
     for n in range(1, 6 if quick else 7):
         for s in range(1, 1 << n):
@@ -180,4 +235,7 @@ def run(ctx) -> None:
 
 
 def replay(ctx, case) -> None:
-    run_case(ctx, case)
+    if case.get("symbolic"):
+        symbolic_case(ctx, case["n"])
+    else:
+        run_case(ctx, case)
